@@ -9,23 +9,38 @@ DRIVER = "drv_rational"
 DRIVER_MODULE = "Driver.Rational"
 PROPS = "RlibModel.Props.C07"
 PROPS_SRC = "RlibModel.Props.C07Src"     # second tie: `src_*` theorems about the definitions regenerated from the source text
-PROFILES = ["release"]
+PROFILES = ["release", "debug"]     # debug: debug-assertions on, a reduced stream of the same families (harness_args)
 SHRINK_SEP = None
-RULE = ("cases: Rational<i32>, <i64>, <i128>; every pair of fractions a/b, c/d with numerators in [-k,k] and denominators in "
-        "[-k,k] minus 0 (k = 8 thorough; 6 for i64 and 4 for i32/i128 quick) through + - * / (by-value, by-reference, assigning and "
-        "assigning-by-reference forms, which must agree), cmp (with partial_cmp, <, <=, >, >=, reversed cmp and == consistency), "
-        "== (with DefaultHasher equality and HashSet membership), and every such fraction through new, neg, floor, ceil, "
-        "Display/Debug; new_int(n) against new(n,1) through ==, cmp, Hash; cmp lines also check !=, min, max, both argument orders and "
-        "reflexivity; Fibonacci/Lucas-ratio operands (up to ~2n Euclid rounds inside norm with operands below the guard; depth measured "
-        "in the histogram keys euclid_rounds_*); boundary-biased samples up to the guard 2^(bits/2-2) (2^14, 2^30, 2^62): shared factors across the two "
-        "fractions, equal values written differently, neighbours, integer values, powers of two and +-1; a small stream outside "
-        "the guard and at MIN / zero denominators where only the machine model is compared (any panic = `panic`). "
+RULE = ("cases: Rational<i8>, <i16>, <i32>, <i64>, <i128>, <isize>; every pair of fractions a/b, c/d with numerators in [-k,k] and denominators in "
+        "[-k,k] minus 0 (thorough k = 8 for i32/i64/i128, 6 for the others; quick 6 for i64, 4 for i32/i128, 3 for the others) through + - * / (by-value, by-reference, assigning and "
+        "assigning-by-reference forms, which must agree), cmp (with partial_cmp, < <= > >=, == !=, both argument orders, Ord::min/max, min_by, clamp, reflexivity, and the same "
+        "through tuples, slices, Option, Reverse), == (with !=, DefaultHasher equality, HashSet membership, slice ==, clone / clone_from / Copy, Hash::hash_slice), and every such "
+        "fraction through new, neg, floor, ceil, Display/Debug; ZeroOne::ZERO/ONE; new_int(n) against new(n,1) through ==, Hash; "
+        "chain:ty op1 op2 = (x op1 y) op2 z with the returned value re-used through all 16 pairings of operator forms; sort:ty = 2..7 live values (duplicates, equal values "
+        "spelled differently) through sort / sort_unstable / sort_by / sort_by_key, BTreeSet, dedup, HashSet, iter min/max, reduce(Ord::min/max), binary_search, contains, "
+        "clamp between every pair of bounds, slice hash and comparison, clone_from_slice; Fibonacci/Lucas-ratio operands (up to ~2n Euclid rounds inside norm; depth measured "
+        "in the histogram keys euclid_rounds_*); boundary-biased samples up to the guard 2^(bits/2-2): shared factors across the two "
+        "fractions, equal values written differently, neighbours, integer values, powers of two and +-1; the TRUE EDGE of every type (keys edge_*): cross products, their sum / "
+        "difference and the product of the denominators in the top bits of the type, just inside and just outside the domain, both arguments of norm's gcd above MAX/2 "
+        "(edge_gcd_operands_both_in_top_bit_*), ==/Hash/neg/Display/new_int on components of any size up to MAX (eq_where_cmp_would_overflow_*), floor/ceil where the adjusted "
+        "numerator reaches the end of the type; every pair of canonical i8 fractions whose cross products fit (sampled); a small stream over the whole range of each type and at MIN / zero "
+        "denominators where only the machine model is compared (any panic = `panic`); a second pass with debug assertions on (reduced stream). The spec answer is definite exactly "
+        "on Lean's edge domain (domNew, domAdd/domSub/domMul/domDiv, domFloor, domCeil, domPairs: non-zero denominators / divisor, every specified intermediate value representable). "
         "non-trivial = distinct case inside the property's domain (spec answer not `any`) with some operand of magnitude > 1")
 ASSUMPTIONS = [
     "the Lean model of rlib_rational is hand-written; it is tied to the code (i) by running both on the same cases and (ii) by theorems src_*_eq_model (see the last entry)",
     "harness built with overflow-checks=true so a wrapped intermediate shows up as panic:overflow instead of a silent wrong value",
     "values of Hash (SipHash) are std's: what is shown is that equal values have equal field pairs, which is all a derived Hash consumes; "
     "the harness additionally observes DefaultHasher equality and HashSet membership",
+    "the property's domain (`numerators and denominators below the overflow threshold of the integer type`) is read per input as: non-zero denominators / divisor, "
+    "constructor arguments of magnitude <= MAX (the minimum has no absolute value), and every value the specified computation forms - the cross products a*d, b*c, their sum or "
+    "difference, b*d for + - cmp; a*c, b*d for *; a*d, b*c for /; a -+ (b-1) for floor / ceil - representable (magnitude <= MAX where norm's gcd takes an absolute value); "
+    "==, !=, Hash, Clone, neg, Display, new_int form nothing, so their domain is everything representable (theorems *_edge_machine; the guard box lies inside: guard_inside_edge)",
+    "std's sort / BTreeSet / binary_search / min / max / clamp algorithms are trusted to be correct for a total order; the model supplies the order (cmp_pairs_edge: every "
+    "comparison they may ask for is answered as the numeric order says) and the unique sorted arrangement (sortSpec_spec, sortSpec_only); the consistency observations of the "
+    "`cmp`, `eq`, `sort`, `chain` lines (provided trait methods against their std definitions in terms of cmp / eq / hash, all operator forms) are computed by the harness and "
+    "appear in the view (`…_inconsistent:<which>`); the expected value of every in-domain line is also computed by an independent oracle in the harness (i128 cross "
+    "multiplication, own Euclid, selection sort) and a disagreement is appended to the view",
 ]
 MANIFEST = {
     "level": "proof",
@@ -33,14 +48,19 @@ MANIFEST = {
              "with positive denominator for every input with non-zero denominators (negative denominators included); canonical forms are "
              "unique, so structural == and the derived Hash coincide with numeric equality; cmp is the numeric order; floor and ceil are "
              "the integer floor and ceiling; under the magnitude guard 2^(bits/2-2) no checked machine operation overflows (the machine "
-             "instantiation computes what the unbounded one computes). The hand-written model is tied to rlib_rational by a differential "
+             "instantiation computes what the unbounded one computes), and the same holds for every signed width on the per-input edge domain (every specified intermediate value representable), "
+             "which contains the guard box and reaches the limit of the type; == / Hash / neg need no more than representable operands; the sorted order of several values is unique. The hand-written model is tied to rlib_rational by a differential "
              "correspondence run on every check."),
     "note": ("Trusted: Lean kernel, axioms propext/Classical.choice/Quot.sound, the hand-written model (checked against the code only on the "
-             "generated cases: exhaustive small box + boundary-biased samples for i32/i64/i128, all operator forms), harness and driver "
+             "generated cases: exhaustive small box + boundary-biased samples + the true edge of each of i8/i16/i32/i64/i128/isize, all operator forms and provided trait methods), harness and driver "
              "plumbing, std's SipHash."),
     "technique": "Lean 4 proof of a hand-written model + differential correspondence check against the Rust crate",
     "design_ref": "DESIGN.md §6 C07",
 }
+
+
+def harness_args(params, profile):
+    return ["--profile", profile]
 
 
 def nontrivial(case, rec):
